@@ -101,6 +101,11 @@ impl Parser {
 
         // not enough data
         if src.len() < frame_len {
+            // refuse an oversized frame as soon as its header announces it, not after buffering it
+            if length > max_size {
+                return Err(ProtocolError::Overflow);
+            }
+
             let min_length = min(length, max_size);
             let required_cap = match idx.checked_add(min_length) {
                 Some(cap) => cap,
